@@ -177,19 +177,25 @@ def rmDynamicLease (c : Conf) (mac : Bytes) (ip : Nat) (host : Bytes) (s : State
 inductive AddErr | subnet | range | dupHost
 deriving DecidableEq, Repr
 
+/-- The effect of a successful `addLease`: hostname entry (if named), address
+entry, append, bit (only for an address inside the pool). -/
+def addLeaseOK (c : Conf) (l : Lease) (s : State) : State :=
+  { s with
+    leases := s.leases ++ [l]
+    hosts := if l.host ≠ [] then setFn s.hosts l.host (some l.id) else s.hosts
+    hostKeys := if l.host ≠ [] then l.host :: s.hostKeys else s.hostKeys
+    ips := setFn s.ips l.ip (some l.id)
+    ipKeys := l.ip :: s.ipKeys
+    bits := match offset c l.ip with
+      | some o => setFn s.bits o true
+      | none => s.bits }
+
 /-- `addLease`; an error leaves the state unchanged. -/
 def addLease (c : Conf) (l : Lease) (s : State) : Except AddErr State :=
-  let off := offset c l.ip
   if l.static && !inSubnet c l.ip then .error .subnet
-  else if !l.static && off.isNone then .error .range
+  else if !l.static && (offset c l.ip).isNone then .error .range
   else if l.host ≠ [] ∧ (s.hosts l.host).isSome then .error .dupHost
-  else
-    let s := if l.host ≠ [] then s.setHost l.host l.id else s
-    let s := s.setIP l.ip l.id
-    let s := { s with leases := s.leases ++ [l] }
-    .ok (match off with
-      | some o => { s with bits := setFn s.bits o true }
-      | none => s)
+  else .ok (addLeaseOK c l s)
 
 inductive RmErr | different | notFound
 deriving DecidableEq, Repr
@@ -321,15 +327,25 @@ def handleByRequestType (c : Conf) (mac : Bytes) (sid : Nat) (reqPresent : Bool)
       | (none, false) => (none, false)
       | (some l, false) => (some l, true)
 
+/-- The hostname `commitLease` settles on: the client's (normalised, or the
+generated one), unless the index already has it — then the generated name for a
+fresh lease (NOT checked against the index), the previous name otherwise. -/
+def commitName (O : Oracle) (l : Lease) (hostname : Bytes) (s : State) : Bytes :=
+  let hn := validHost O hostname l.ip
+  if (s.hosts hn).isSome then (if l.host = [] then genHost l.ip else l.host) else hn
+
+/-- Give the table lease `l` the hostname `hn` and the expiry `exp`: drop the
+index entry of the previous name if it differs, enter the new name (both by
+key).  The tail of `commitLease`, and of `handleDecline` for the replacement
+lease (there the deletion is written before the assignment; they commute). -/
+def renameLease (l : Lease) (hn : Bytes) (exp : Nat) (s : State) : State :=
+  let s := s.update l.id (fun x => { x with host := hn, exp := exp })
+  let s := if l.host ≠ [] ∧ l.host ≠ hn then s.delHost l.host else s
+  if hn ≠ [] then s.setHost hn l.id else s
+
 /-- `commitLease`. -/
 def commitLease (O : Oracle) (c : Conf) (l : Lease) (hostname : Bytes) (s : State) : State :=
-  let prev := l.host
-  let hn := validHost O hostname l.ip
-  let hn := if (s.hosts hn).isSome then (if prev = [] then genHost l.ip else prev) else hn
-  let s := s.update l.id (fun x => { x with host := hn, exp := s.now + c.leaseTime })
-  let s := if prev ≠ [] ∧ prev ≠ hn then s.delHost prev else s
-  let s := if hn ≠ [] then s.setHost hn l.id else s
-  s.setIP l.ip l.id
+  (renameLease l (commitName O l hostname s) (s.now + c.leaseTime) s).setIP l.ip l.id
 
 /-- `handleRequest`. -/
 def handleRequest (O : Oracle) (c : Conf) (mac : Bytes) (sid : Nat) (reqPresent : Bool) (reqIP ciaddr : Nat)
@@ -356,11 +372,7 @@ def handleDecline (c : Conf) (mac : Bytes) (reqPresent : Bool) (reqIP ciaddr : N
       | (s, none) => (s.store, Reply.nak)
       | (s, some none) => (s.store, { rc := 1, typ := 5, yi := 0, err := "ok" })
       | (s, some (some nl)) =>
-        let prev := nl.host
-        let s1 := if prev ≠ [] ∧ prev ≠ old.host then s.delHost prev else s
-        let s2 := s1.update nl.id (fun x => { x with host := old.host, exp := s.now + c.leaseTime })
-        let s3 := if old.host ≠ [] then s2.setHost old.host nl.id else s2
-        (s3.store, { rc := 1, typ := 5, yi := nl.ip, err := "ok" })
+        ((renameLease nl old.host (s.now + c.leaseTime) s).store, { rc := 1, typ := 5, yi := nl.ip, err := "ok" })
 
 /-- The `for _, l := range s.leases` of `handleRelease`: the slice header is
 evaluated once, so slot `k` of the backing array (`leases ++ stale`) is read
@@ -391,29 +403,60 @@ def handleRelease (c : Conf) (mac : Bytes) (reqPresent : Bool) (reqIP ciaddr : N
 def addErrName : AddErr → String
   | .subnet => "subnet" | .range => "range" | .dupHost => "dupHost"
 
-/-- `AddStaticLease` → `updateStaticLease`.  An error of `updateStaticLease`
-(possibly after `rmDynamicLease` has changed the table) stores the database too. -/
+/-- The hostname check of `AddStaticLease`: empty stays empty, otherwise it
+must normalise to a valid name (`none` = error). -/
+def staticHost (O : Oracle) (rawHost : Bytes) : Option Bytes :=
+  if rawHost = [] then some []
+  else match O.norm rawHost with
+    | none => none
+    | some h => if O.valid h then some h else none
+
+/-- `updateStaticLease` (`rmDynamicLease`, `addLease`) with the notifications of
+`AddStaticLease`: an error of `updateStaticLease` (possibly after
+`rmDynamicLease` has changed the table) stores the database too. -/
+def addStaticCore (c : Conf) (mac : Bytes) (ip : Nat) (host : Bytes) (s : State) : State × Reply :=
+  match rmDynamicLease c mac ip host s with
+  | (s, true) => (s.store, Reply.api "staticExists")
+  | (s, false) =>
+    match addLease c { id := s.nextId, mac := mac, ip := ip, host := host, static := true, exp := 0 } s.fresh.2 with
+    | .error e => (s.fresh.2.store, Reply.api (addErrName e))
+    | .ok s => (s.store, Reply.api "ok")
+
+/-- `AddStaticLease`. -/
 def addStatic (O : Oracle) (c : Conf) (mac : Bytes) (ip : Nat) (rawHost : Bytes) (s : State) : State × Reply :=
   if ip = c.gw then (s, Reply.api "gateway")
   else if !validMAC mac then (s, Reply.api "badMAC")
-  else
-    let hostE : Option Bytes :=
-      if rawHost = [] then some []
-      else match O.norm rawHost with
-        | none => none
-        | some h => if O.valid h then some h else none
-    match hostE with
+  else match staticHost O rawHost with
     | none => (s, Reply.api "hostname")
-    | some host =>
-      match rmDynamicLease c mac ip host s with
-      | (s, true) => (s.store, Reply.api "staticExists")
-      | (s, false) =>
-        let (id, s) := s.fresh
-        match addLease c { id := id, mac := mac, ip := ip, host := host, static := true, exp := 0 } s with
-        | .error e => (s.store, Reply.api (addErrName e))
-        | .ok s => (s.store, Reply.api "ok")
+    | some host => addStaticCore c mac ip host s
 
 def macOfId (s : State) (id : Option Nat) : Option Bytes := (id.bind s.deref).map (·.mac)
+
+/-- `dup, ok := index[key]; ok && !bytes.Equal(dup.HWAddr, mac)`. -/
+def heldByOther (s : State) (id : Option Nat) (mac : Bytes) : Bool :=
+  match macOfId s id with
+  | some m => m != mac
+  | none => false
+
+/-- `validateStaticLease` after the hostname has been normalised (`none` = passes). -/
+def updStaticCheck (O : Oracle) (c : Conf) (mac : Bytes) (ip : Nat) (host : Bytes) (s : State) : Option String :=
+  if !O.valid host then some "hostname"
+  else if heldByOther s (s.hosts host) mac then some "dupHost"
+  else if heldByOther s (s.ips ip) mac then some "dupIP"
+  else if ip = c.gw then some "gateway"
+  else if !inSubnet c ip then some "subnet"
+  else none
+
+/-- The tail of `UpdateStaticLease`: `rmLease(found)`, `addLease(l)`; only
+success stores the database. -/
+def updStaticCore (c : Conf) (found : Lease) (mac : Bytes) (ip : Nat) (host : Bytes) (s : State) : State × Reply :=
+  match rmLease c found.mac found.ip found.host s with
+  | .error .different => (s, Reply.api "different")
+  | .error .notFound => (s, Reply.api "notFound")
+  | .ok s =>
+    match addLease c { id := s.nextId, mac := mac, ip := ip, host := host, static := true, exp := 0 } s.fresh.2 with
+    | .error e => (s.fresh.2, Reply.api (addErrName e))
+    | .ok s => (s.store, Reply.api "ok")
 
 /-- `UpdateStaticLease` (`findLease`, `validateStaticLease`, `rmLease`, `addLease`). -/
 def updStatic (O : Oracle) (c : Conf) (mac : Bytes) (ip : Nat) (rawHost : Bytes) (s : State) : State × Reply :=
@@ -423,19 +466,9 @@ def updStatic (O : Oracle) (c : Conf) (mac : Bytes) (ip : Nat) (rawHost : Bytes)
     match O.norm rawHost with
     | none => (s, Reply.api "hostname")
     | some host =>
-      if !O.valid host then (s, Reply.api "hostname")
-      else if (match macOfId s (s.hosts host) with | some m => m != mac | none => false) then (s, Reply.api "dupHost")
-      else if (match macOfId s (s.ips ip) with | some m => m != mac | none => false) then (s, Reply.api "dupIP")
-      else if ip = c.gw then (s, Reply.api "gateway")
-      else if !inSubnet c ip then (s, Reply.api "subnet")
-      else match rmLease c found.mac found.ip found.host s with
-        | .error .different => (s, Reply.api "different")
-        | .error .notFound => (s, Reply.api "notFound")
-        | .ok s =>
-          let (id, s) := s.fresh
-          match addLease c { id := id, mac := mac, ip := ip, host := host, static := true, exp := 0 } s with
-          | .error e => (s, Reply.api (addErrName e))
-          | .ok s => (s.store, Reply.api "ok")
+      match updStaticCheck O c mac ip host s with
+      | some e => (s, Reply.api e)
+      | none => updStaticCore c found mac ip host s
 
 /-- `RemoveStaticLease`. -/
 def rmStatic (c : Conf) (mac : Bytes) (ip : Nat) (rawHost : Bytes) (s : State) : State × Reply :=
@@ -452,11 +485,10 @@ def rmStatic (c : Conf) (mac : Bytes) (ip : Nat) (rawHost : Bytes) (s : State) :
 def resetLoop (O : Oracle) (c : Conf) : List DLease → State → State
   | [], s => s
   | d :: rest, s =>
-    let (id, s) := s.fresh
-    let host := if d.static then d.host else validHost O d.host d.ip
-    let l : Lease := { id := id, mac := d.mac, ip := d.ip, host := host, static := d.static, exp := d.exp }
-    match addLease c l s with
-    | .error _ => resetLoop O c rest s
+    let l : Lease := { id := s.nextId, mac := d.mac, ip := d.ip,
+                       host := (if d.static then d.host else validHost O d.host d.ip), static := d.static, exp := d.exp }
+    match addLease c l s.fresh.2 with
+    | .error _ => resetLoop O c rest s.fresh.2
     | .ok s' => resetLoop O c rest s'
 
 /-- A new process: `v4Create` + `dbLoad` of what is on disk. -/
